@@ -230,13 +230,19 @@ def build_sampling_graph(
             assert len(vertices) == 2
             g.remove_vertex(vertices.pop())
 
+        # One output per detector, then one per logical observable 0..max_index, in
+        # index order. An index that is never included is the constant 0.
+        num_observables = max(built.observables_dict.keys(), default=-1) + 1
         labels = [f"det[{i}]" for i in range(len(built.detectors))] + [
-            f"obs[{i}]" for i in built.observables_dict.keys()
+            f"obs[{i}]" for i in range(num_observables)
         ]
         for label in labels:
             vs = annotation_to_vertex[label]
-            assert len(vs) == 1
-            v = vs[0]
+            if "obs" in label and len(vs) == 0:
+                v = g.add_vertex(VertexType.X, qubit=-1, row=0, phase=0)
+            else:
+                assert len(vs) == 1
+                v = vs[0]
             row = g.row(v)
             vb = g.add_vertex(
                 VertexType.BOUNDARY, qubit=-2 if "det" in label else -2.5, row=row
